@@ -13,7 +13,7 @@ CONSTANTS
   InitClkEpochs = {0, 1}
   MaxLen = 4
   RawMags <- RawMagsOne
-  StepUsesDoubleInv = TRUE
-  DurationWraps = TRUE
+  StepUsesDoubleInv = FALSE
+  DurationWraps = FALSE
 VIEW ViewGen
 INVARIANTS Emit
